@@ -1065,6 +1065,7 @@ def kin_trace(net, gen, rng, hops, full):
             ks = ks[:3] + rng.sample(ks[3:], min(4, len(ks) - 3))
         t.data("prev", "v4", x4, ks[0])                    # a kin is judged before the packet ...
         t.data("prev", "v4", x4, base)
+        from_outside(0, base)
         for i, k in enumerate(ks):                         # ... and all of them after it
             if i < 2 or i % 2 == 0:
                 t.data("prev", "v6" if i % 4 == 2 and t.state() == "ready" else "v4",
